@@ -23,7 +23,7 @@ static const char *rep_formats [] =
 
 #define NSTEPS 8
 typedef struct
-{	const Fmt *f ; int ch, kind, B ;		/* kind 0: write script, 1: read script */
+{	const Fmt *f ; int ch, kind, B, variant ;		/* kind 0: write script, 1: read script ; variant 1: the handle asks for the portable IEEE serialisers (a per-handle test setting) */
 	unsigned char *seed ; sf_count_t seed_len ;	/* read scripts: the file */
 	uint64_t solo [NSTEPS + 1] ; int solo_ok ;	/* transcript of the script run alone in a fresh process; [NSTEPS] = final device hash */
 } Script ;
@@ -53,6 +53,8 @@ static short sdata [9000] ; static float fdata [9000] ;
 
 static void init_data (void)
 {	for (int i = 0 ; i < 9000 ; i++) { sdata [i] = (short) (((i * 37) % 2001 - 1000) * 13) ; fdata [i] = (float) (((i * 53) % 1501 - 750) / 1024.0) ; }
+	/* values on which the host and the portable float serialisers differ (a handle that got the wrong ones shows it in its file) */
+	fdata [1] = -0.0f ; fdata [2] = 1e-40f ; fdata [4] = -1e-41f ; fdata [7] = -0.0f ;
 }
 
 /* execute step k of the script on the handle; returns the transcript word for it */
@@ -70,7 +72,7 @@ static uint64_t do_step (Handle *h, int k)
 			case 1 : t = vl_hash_u64 (vl_write (h->sf, T_SHORT, 1, sdata, B - 1), t) ; break ;
 			case 2 : t = vl_hash_u64 (vl_write (h->sf, T_FLOAT, 0, fdata, (B + 1) * ch), t) ; break ;
 			case 3 : t = vl_hash_u64 (vl_read (h->sf, T_SHORT, 1, sb, 2), t) ; break ;						/* failing call: read on a write handle */
-			case 4 : { int r ; INLIB (r = sf_set_string (h->sf, SF_STR_COMMENT, "iso")) ; t = vl_hash_u64 (r != 0, t) ; } break ;
+			case 4 : { int r ; if (s->variant == 1) INLIB (r = sf_command (h->sf, SFC_TEST_IEEE_FLOAT_REPLACE, NULL, SF_TRUE)) ; else INLIB (r = sf_set_string (h->sf, SF_STR_COMMENT, "iso")) ; t = vl_hash_u64 (r != 0, t) ; } break ;
 			case 5 : t = vl_hash_u64 (vl_write (h->sf, T_SHORT, 1, sdata + 100, 3), t) ; break ;
 			case 6 : { sf_count_t r ; INLIB (r = sf_seek (h->sf, -5, SEEK_SET)) ; t = vl_hash_u64 (r, t) ; } break ;	/* failing call */
 			case 7 : { int r ; INLIB (r = sf_close (h->sf)) ; h->sf = NULL ; t = vl_hash_u64 (r, t) ; } break ;
@@ -126,7 +128,7 @@ static int solo_in_child (Script *s)
 }
 
 static void build_scripts (void)
-{	MemDev d ; md_init (&d) ; nscripts = 0 ;
+{	MemDev d ; int nrepl = 0 ; md_init (&d) ; nscripts = 0 ;
 	for (int i = 0 ; rep_formats [i] ; i++)
 	{	const Fmt *f = fmt_by_name (rep_formats [i]) ; int ch ;
 		if (! f) continue ;
@@ -159,6 +161,8 @@ static void build_scripts (void)
 				if (s->seed_len <= 0) continue ;
 				}
 			nscripts ++ ;
+			if (kind == 0 && f->is_float && nrepl < 2)
+			{	Script *v = &scripts [nscripts++] ; *v = *s ; v->variant = 1 ; nrepl ++ ; }
 			}
 		}
 	{	static const char *pf [] = { "sd2/pcm_16/file", "sd2/pcm_24/file", "wav/pcm_16/file", "aiff/pcm_16/file", "caf/alac_16/file", "au/ulaw/file", NULL } ;
@@ -173,7 +177,7 @@ static void build_scripts (void)
 	md_free (&d) ;
 }
 
-static const char *sname (const Script *s) { static const char *kn [4] = { "W", "R", "Wpath", "Rpath" } ; return rt_sig ("%s:%s", s->f->name, kn [s->kind]) ; }
+static const char *sname (const Script *s) { static const char *kn [4] = { "W", "R", "Wpath", "Rpath" } ; return rt_sig ("%s:%s%s", s->f->name, kn [s->kind], s->variant ? "repl" : "") ; }
 
 /* run one schedule (sequence of handle indices, one per step) over n handles and compare with the solo transcripts */
 static void run_schedule (Script **ss, int n, const int *order, int total)
